@@ -32,4 +32,16 @@ inductive RedKind where
   | other
   deriving DecidableEq, Repr
 
+/-- one event of a method body that updates the two attributes, in source order (GENERATED table
+`Nitime/Generated/C01Fail.lean`): what is written, and what can raise, BEFORE or AFTER what -/
+inductive Ev where
+  | writeLabel       -- `self.time_unit = …`
+  | writeFactor      -- `self._conversion_factor = …`
+  | lookup           -- `time_unit_conversion[<the unit argument>]` is evaluated: raises when the argument is not a key
+  | raiseIfNone      -- `if <arg> is None: raise …`
+  | raiseIfInvalid   -- `if <arg> not in time_unit_conversion: raise …`
+  | raiseOther       -- a raise under any other guard
+  | unknown          -- outside the translated fragment (no theorem accepts it)
+  deriving DecidableEq, Repr
+
 end Nitime.C01Attr
